@@ -176,13 +176,19 @@ def cmd_replay(prop, path):
     return 0
 
 
-def cmd_digest(prop, idxs, verif_seed):
+def cmd_digest(prop, idxs, verif_seed, workers=None):
     spec = SPECS[prop]
     mod = _engine(spec)
     out = {}
-    for i in idxs:
-        r = core.run_one(mod.engine_run, prop, verif_seed, spec['engine'], i, extra=spec.get('extra'))
-        out[str(i)] = r['digest']
+    if workers and workers > 1:  # self-test: same indices through the forked pool at a given worker count
+        assert idxs == list(range(len(idxs)))
+        results, _ = core.run_batch(spec['mod'], 'engine_run', prop, verif_seed, spec['engine'], len(idxs),
+                                    workers=workers, extra=spec.get('extra'), stop_on_violations=10**9)
+        out = {str(r['i']): r['digest'] for r in results}
+    else:
+        for i in idxs:
+            r = core.run_one(mod.engine_run, prop, verif_seed, spec['engine'], i, extra=spec.get('extra'))
+            out[str(i)] = r['digest']
     print('DIGESTS ' + json.dumps(out, sort_keys=True))
     return 0
 
@@ -411,11 +417,12 @@ def main(argv=None):
     ap.add_argument('--runs', type=int)
     ap.add_argument('--workers', type=int)
     ap.add_argument('--triage', type=int)
+    ap.add_argument('what', nargs='*', help='selftest: determinism | sensitivity [ids/properties...]')
     a = ap.parse_args(argv)
     verif_seed = int(os.environ.get('VERIF_SEED', '0') or 0)
     if a.prop == 'selftest':
         from . import selftest
-        return selftest.main(verif_seed)
+        return selftest.main(verif_seed, a.what, a.runs)
     if a.prop not in SPECS:
         print('unknown property', a.prop)
         return 2
@@ -424,7 +431,12 @@ def main(argv=None):
     if a.triage:
         return cmd_triage(a.prop, verif_seed, a.triage)
     if a.digest:
-        return cmd_digest(a.prop, [int(x) for x in a.digest.split(',')], verif_seed)
+        if '-' in a.digest:
+            lo, hi = a.digest.split('-')
+            idxs = list(range(int(lo), int(hi)))
+        else:
+            idxs = [int(x) for x in a.digest.split(',')]
+        return cmd_digest(a.prop, idxs, verif_seed, a.workers)
     try:
         return cmd_check(a.prop, a.tier, verif_seed, a.runs, a.workers)
     except core.HarnessError as e:
